@@ -415,8 +415,9 @@ def sequential_events(rnd: random.Random, q: bool) -> list:
     #     current culture - the questions asked afterwards (under the default culture again) have the same answers
     try:
         answers = {}
-        for first in ["", "fi-FI", "da-DK", "ar-SA"]:
-            proc = _sp.run([_sys.executable, "-m", "harness.drivers.fresh_probe"], input=_json.dumps({"first_culture": first}), capture_output=True,
+        for first in ["", "fi-FI", "da-DK", "ar-SA", "calls"]:
+            req = {"first_culture": "", "first_calls": ["hebrew_int", "bcl_rules", "islamic_int"]} if first == "calls" else {"first_culture": first}
+            proc = _sp.run([_sys.executable, "-m", "harness.drivers.fresh_probe"], input=_json.dumps(req), capture_output=True,
                            text=True, timeout=300, env=dict(_os.environ))
             answers[first] = _json.loads(proc.stdout) if proc.returncode == 0 and proc.stdout.strip() else None
         base = answers.get("")
